@@ -292,17 +292,29 @@ def isTrigOk (c : STCfg) (live : Store) (m : Msg) : Bool × Option Env :=
 
 /-- `_cycle` body + `_check_new_state` with `state_hold is None`, `state_hold_false is None`:
 ```
-if ident_any_values_changed(self.last_func_args, self.state_trig_ident_any): trig_ok = True
-elif ident_values_changed(self.last_func_args, self.state_trig_ident): trig_ok = await self._is_trig_ok()
-else: trig_ok = False
+if ident_any_values_changed(func_args, self.state_trig_ident_any): trig_ok = True
+elif ident_values_changed(func_args, self.state_trig_ident):
+    trig_ok = self.has_expression() and await self._is_trig_ok(new_vars)    # since fix 5a43b84
+else: continue
 await self._check_new_state(trig_ok)      # no holds: dispatch iff trig_ok
-``` -/
-def handle (c : STCfg) (live : Store) (m : Msg) : Outcome :=
+```
+Deviation flag `noExprRuns` (DESIGN §4): `true` = the code BEFORE `5a43b84` (`trig_ok = await self._is_trig_ok()`,
+which is `True` for a decorator without expression). -/
+def handleF (noExprRuns : Bool) (c : STCfg) (live : Store) (m : Msg) : Outcome :=
   let r : Bool × Option Env :=
     if identAny m.ev c.anyNames then (true, none)
-    else if identChanged m.ev c.ident then isTrigOk c live m
+    else if identChanged m.ev c.ident then
+      (if noExprRuns then isTrigOk c live m else ((c.expr.isSome && (isTrigOk c live m).1), (isTrigOk c live m).2))
     else (false, none)
   ⟨if r.1 then some (mkRun c m.ev) else none, r.2⟩
+
+/-- the code as it is now -/
+def noExprRunsCurrent : Bool := false
+
+def handle : STCfg → Store → Msg → Outcome := handleF noExprRunsCurrent
+
+/-- the code before fix `5a43b84` (kept for the `_regress_` theorem) -/
+def handlePreFix : STCfg → Store → Msg → Outcome := handleF true
 
 end New
 
